@@ -570,7 +570,12 @@ class PyCdlibRockRidge:
         else:
             basename, ext = utils.mangle_file_for_iso9660(rr_name.decode('utf-8'),
                                                           self.pycdlib_obj.interchange_level)
-            iso_name = '.'.join([basename, ext])
+            if ext == '':
+                # Only at interchange level 4 can there be no extension (and no
+                # version); there the name is used as it is.
+                iso_name = basename
+            else:
+                iso_name = '.'.join([basename, ext])
 
         # Different Rock Ridge names can mangle to the same ISO9660 name.  If
         # the name is taken by an entry with another Rock Ridge name, replace
